@@ -599,6 +599,58 @@ def run_tree(specs, via="build", default=False):
         return _exc(e)
 
 
+def record(r):
+    """an adversarial consumer: copy the answer, then EDIT the returned list object in place (bogus entry appended, inner
+    atom lists extended) -- whatever the caller does with a returned answer must not influence later answers"""
+    out = ("ok", [(n, [int(i) for i in ids]) for n, ids in r])
+    try:
+        if isinstance(r, list):
+            for e in r:
+                if isinstance(e, (tuple, list)) and len(e) == 2 and isinstance(e[1], list):
+                    e[1].append(-999)
+            r.append(("BOGUS", [-1]))
+    except Exception:
+        pass
+    return out
+
+
+HYDROCARBONS = ["C", "CC", "C=C", "C#C", "CCC", "CC(C)C", "C1CC1", "C=CC=C", "c1ccccc1", "Cc1ccccc1", "C1CCCCC1", "CC=C"]
+# strings whose reported group has a hydrogen among its group atoms, others, and reaction SMILES
+SMILES_H = ["CCO", "CO", "CC(C)O", "CC(C)(C)O", "Oc1ccccc1", "C=CO", "COC(O)C", "OCCO", "CC(O)OC", "NCCO"]
+SMILES_OTHER = ["CC(=O)OC", "CCN", "CCSC", "CC#N", "CC(=O)Cl", "CC", "c1ccccc1", "COC", "CC(=O)N", "O=CCl"]
+SMILES_RXN = ["[CH3:1][OH:2]>>[CH3:1][OH:2]", "[C:1][C:2](=[O:3])[O:4][C:5].[O:6]>>[C:1][C:2](=[O:3])[O:6].[O:4][C:5]",
+              "[CH3:1][C:2](=[O:3])[Cl:4].[OH2:5]>>[CH3:1][C:2](=[O:3])[OH:5].[ClH:4]"]
+
+
+def smiles_input_graph(text):
+    """what FGQuery.get(text) must be equivalent to: get(graph) for the graph of the string, built here directly from RDKit
+    (no fgutils.rdkit.smiles_to_graph: any cache in front of it is bypassed); reaction SMILES go through get_its"""
+    import rdkit.Chem.rdmolfiles as rdmolfiles
+    from fgutils.rdkit import mol_to_graph
+    from fgutils.its import get_its
+    if ">>" in text:
+        r, p = text.split(">>")
+        return get_its(mol_to_graph(rdmolfiles.MolFromSmiles(r)), mol_to_graph(rdmolfiles.MolFromSmiles(p)))
+    return mol_to_graph(rdmolfiles.MolFromSmiles(text))
+
+
+def run_strings(specs, req_h, texts, fresh_last=True):
+    """get(text) for every text on ONE FGQuery object, then (fresh_last) the last text once more on a fresh object"""
+    outs = []
+    try:
+        q = make_query(specs, req_h)
+    except (AssertionError, KeyError, IndexError, ValueError, TypeError) as e:
+        return [_exc(e)] * (len(texts) + (1 if fresh_last else 0))
+    for k, t in enumerate(list(texts) + ([texts[-1]] if fresh_last else [])):
+        try:
+            if fresh_last and k == len(texts):
+                q = make_query(specs, req_h)
+            outs.append(record(q.get(t)))
+        except (AssertionError, KeyError, IndexError, ValueError, TypeError) as e:
+            outs.append(_exc(e))
+    return outs
+
+
 def run_query(specs, req_h, graph, repeats=1):
     """-> list of answers (one per get() call on the same object); each answer is
     ("ok", [(name, [ids])]) | (exception class name, message).  specs None = FGQuery()."""
@@ -611,8 +663,7 @@ def run_query(specs, req_h, graph, repeats=1):
         return [_exc(e)] * repeats
     for _ in range(repeats):
         try:
-            r = q.get(graph)
-            outs.append(("ok", [(n, [int(i) for i in ids]) for n, ids in r]))
+            outs.append(record(q.get(graph)))
         except (AssertionError, KeyError, IndexError, ValueError, TypeError) as e:
             outs.append(_exc(e))
     return outs
@@ -648,8 +699,7 @@ def run_steps(steps):
         g = gens.copy_exact(st["graph"])
         try:
             q = make_query(st["specs"], st["req_h"], st.get("via", "query-list"))
-            r = q.get(g)
-            outs.append(("ok", [(n, [int(i) for i in ids]) for n, ids in r]))
+            outs.append(record(q.get(g)))
         except (AssertionError, KeyError, IndexError, ValueError, TypeError) as e:
             outs.append(_exc(e))
         mutated = mutated or not gens.graphs_identical(g, st["graph"])
@@ -787,8 +837,7 @@ def run_editseq(specs, req_h, g0, events):
 
     def getter(G):
         try:
-            r = q.get(G)
-            return ("ok", [(n, [int(i) for i in ids]) for n, ids in r])
+            return record(q.get(G))
         except (AssertionError, KeyError, IndexError, ValueError, TypeError) as e:
             return _exc(e)
     return [a for _, a in play(events, g0, getter)]
